@@ -626,7 +626,10 @@ func (f *memFile) Write(p []byte) (int, error) {
 				hole[i] = 0
 			}
 		} else {
-			d := make([]byte, f.pos, f.pos+len(p))
+			d, err := makeFileData(f.pos, len(p))
+			if err != nil {
+				return 0, &os.PathError{Op: "write", Path: f.nameSnapshot, Err: err}
+			}
 			copy(d, f.n.data)
 			f.n.data = d
 		}
@@ -639,6 +642,21 @@ func (f *memFile) Write(p []byte) (int, error) {
 	}
 	f.n.modTime = time.Now()
 	return lenp, nil
+}
+
+// makeFileData returns make([]byte, n, n+extra). A Seek can leave the offset
+// anywhere, so n may be more than a slice can hold: that is an error for the
+// Write that follows (like EFBIG), not a reason to panic.
+func makeFileData(n, extra int) (d []byte, err error) {
+	defer func() {
+		if recover() != nil {
+			d, err = nil, errFileTooLarge
+		}
+	}()
+	if n+extra < n {
+		return nil, errFileTooLarge
+	}
+	return make([]byte, n, n+extra), nil
 }
 
 // moveFiles moves files and/or directories from src to dst.
